@@ -92,6 +92,9 @@ func backendProp(b backendSpec, meaning string) propFunc {
 			r.floor("array.extentorder", 1)
 		}
 		if b.Name == "glsl" {
+			r.Clauses = append(r.Clauses, "sampler precision (E49): every GLSL declaration of a combined sampler uniform has the precision slot (\"uniform %s%s\") the ES flag fills with highp")
+			c.runSamplerPrecision(r, "glsl.samplerprecision", "glsl/internal/codegen")
+			r.floor("glsl.samplerprecision", 2)
 			r.Clauses = append(r.Clauses, "declarator extents (E50): a self-recursive function that prints one [extent] per array level prints its own extent before recursing into the element type")
 			c.runExtentOrder(r, "array.extentorder", inPkgs("glsl"))
 			r.floor("array.extentorder", 1)
